@@ -227,7 +227,10 @@ func newActive(name string, fn f1testing.ScenarioFn, stats *progress.Stats) *wor
 var loggerKind atomic.Int64
 
 func newActiveOf(sc *scenarios.Scenario, stats *progress.Stats) *workers.ActiveScenario {
-	m := runkit.NewMetrics(nil, true)
+	return newActiveOfM(sc, stats, runkit.NewMetrics(nil, true))
+}
+
+func newActiveOfM(sc *scenarios.Scenario, stats *progress.Stats, m *metrics.Metrics) *workers.ActiveScenario {
 	return workers.NewActiveScenario(sc, m, stats, runkit.Logger(int(loggerKind.Add(1))), logrus.New())
 }
 
@@ -471,6 +474,7 @@ func TestC20(t *testing.T) {
 		var fns []f1testing.ScenarioFn
 		var setupHandles, runHandles []*f1testing.T
 		warm := false
+		warmed := uint64(0) // the warm-up iteration is a recorded success of its own
 		stopBias := kit.Pick(r, 0, 0, 8, 25)
 		for ci := range comps {
 			comps[ci].setup = append([]act{{5, 2*ci + 1000, 0}}, genActs(r, len(p.tab), 3, &mb, stopBias/2)...)
@@ -491,10 +495,14 @@ func TestC20(t *testing.T) {
 		stats := &progress.Stats{}
 		combined := f1.CombineScenarios(fns...)
 		registered := &scenarios.Scenario{Name: "c20", ScenarioFn: combined}
+		// one metrics instance for everything this process does with the scenario, reset at the
+		// start of every run as Run.Do does
+		m := runkit.NewMetrics(nil, true)
 		if r.Chance(40) {
 			// the same combined scenario value is set up more than once in a process (a second
 			// execution, or registered under two names): every setup stands on its own
-			pre := newActiveOf(registered, &progress.Stats{})
+			m.Reset()
+			pre := newActiveOfM(registered, &progress.Stats{}, m)
 			pre.Setup()
 			if !pre.Failed() && r.Bool() {
 				st0 := pre.VerifNewIterationState()
@@ -509,7 +517,8 @@ func TestC20(t *testing.T) {
 		} else {
 			o.Count("setups", "first setup")
 		}
-		as := newActiveOf(registered, stats)
+		m.Reset()
+		as := newActiveOfM(registered, stats, m)
 		as.Setup()
 		setupEvents := append([]int64(nil), logv...)
 		setupFailed := as.Failed()
@@ -526,6 +535,7 @@ func TestC20(t *testing.T) {
 				tt.Reset("0")
 				as.Run(st)
 				warm = false
+				warmed = 1
 				o.Count("handle", "recycled after a clean iteration")
 			}
 			for it := 0; it < k; it++ {
@@ -547,6 +557,23 @@ func TestC20(t *testing.T) {
 		for _, h := range setupHandles {
 			if h != as.VerifSetupT() {
 				o.Fail("c20-setup-handle", "a component's setup received a handle other than the setup handle")
+			}
+		}
+		// the exported iteration metric reports the compared iterations by their outcome, whatever
+		// ran on the instance before the reset
+		if !setupFailed {
+			iter, _, _ := runkit.SampleCounts(m)
+			var nf, ns uint64
+			for _, oc := range outcomes {
+				if oc == "T" {
+					nf++
+				} else {
+					ns++
+				}
+			}
+			ns += warmed
+			if iter["fail"] != nf || iter["success"] != ns {
+				o.Fail("c20-metric-outcomes", fmt.Sprintf("%d iterations of a combined scenario (%d reported failed): the exported iteration metric holds %d fail / %d success samples", len(outcomes), nf, iter["fail"], iter["success"]))
 			}
 		}
 		items := make([]string, nc)
